@@ -4,7 +4,8 @@
 //
 //	uri     <passes p>[L][@sched] <finalNL> <file> <line tokens...>     (L: provider with preload: true;
 //	        @sched: instance schedule, digits = instance ids, an event of an instance that holds no ammo is
-//	        an Acquire, otherwise the shoot (request materialised, body read) + Release of what it holds)
+//	        an Acquire, otherwise the shoot (request materialised, body read) + Release of what it holds;
+//	        then optionally %n,n,..: the ammo file is read in short reads of these sizes, cyclically)
 //	uripost <passes p> <finalNL> <file> <line tokens...>
 //	raw     <passes p> <finalNL> <file> <line tokens...>
 //	json    <passes p> <array 0|1> <file> <entity tokens...>
@@ -33,7 +34,13 @@ func runCase(c string) string {
 	}
 	// passes field: "<p>" or "<p>L" (L = with preload: true)
 	// then optionally "@<schedule>": instance schedule, see a07ammo/sched.go
-	pf, sched, hasSched := strings.Cut(f[1], "@")
+	// and optionally "%<n,n,...>": the file hands out its content in short reads of these sizes (cyclic)
+	pf, chunkSpec, hasChunks := strings.Cut(f[1], "%")
+	pf, sched, hasSched := strings.Cut(pf, "@")
+	var chunks []int
+	if hasChunks {
+		chunks = a07ammo.ParseChunks(chunkSpec)
+	}
 	preload := strings.HasSuffix(pf, "L")
 	p, _ := strconv.Atoi(strings.TrimSuffix(pf, "L"))
 	file := vh.UnHex(f[3])
@@ -47,10 +54,14 @@ func runCase(c string) string {
 	if dec == "json" {
 		dec = "jsonline"
 	}
-	if hasSched {
+	if hasSched || hasChunks {
+		if !hasSched {
+			// sequential: one instance acquires and shoots p*n+1 times
+			sched = strings.Repeat("00", p*n+1)
+		}
 		switch f[0] {
 		case "uri", "uripost", "raw", "json":
-			return a07ammo.RunProviderSched(dec, file, preload, sched)
+			return a07ammo.RunProviderSched(dec, file, preload, sched, chunks)
 		}
 		return "unknown-case"
 	}
